@@ -41,9 +41,8 @@ class Requests(Part):
 
     def mc(self, ctx):
         # Apalache side-car: the counter laws as an inductive invariant, i.e. for request sequences of any length (train steps 0,1,2,3,5,7)
-        n = tlc.apalache_inductive("apalache/SurrogateInd.tla", ctx.scratch)
-        ctx.notes.append("apalache-mc: IndInv of spec/apalache/SurrogateInd.tla established inductively (%d obligations: Init => IndInv, "
-                         "IndInv /\\ Next => IndInv') -- unbounded request sequences" % n)
+        tlc.sidecar(ctx, "apalache-mc: IndInv of spec/apalache/SurrogateInd.tla inductive (Init => IndInv, IndInv /\\ Next => IndInv') -- unbounded "
+                    "request sequences", tlc.apalache_inductive, "apalache/SurrogateInd.tla", ctx.scratch)
         return [tlc.run("Surrogate", MC_CFG % ("", 7) if ctx.quick else MC_CFG % (", 4, 5", 10), ctx.scratch, workers=8, coverage=True,
                         name="Surrogate-mc", timeout=2400)]
 
